@@ -8,12 +8,33 @@ Import ListNotations.
    sub-values of the result are exactly -- same objects, same order -- the input sub-values at
    Any / pass_through positions and at collection positions whose origin is in the effective
    no_copy set and whose element packer is the identity; every other container is new. *)
+(* The grammar includes unions (pack_union: identity members guarded by the exact class of the value,
+   then the other members' packers tried in declaration order, `accepts` = does not raise); there the
+   statement needs the computable domain predicate udet: at every union position the value reaches,
+   that dispatch lands on the first member the value conforms to. *)
 Theorem C18_share : forall E n0 call Ntop t v,
-  conforms E v t = true -> all_old n0 v = true ->
+  conforms E v t = true -> udet E v call Ntop true t = true -> all_old n0 v = true ->
   let (r, n1) := pack_top E call Ntop t v n0 in
   maxold n0 r = byref E (ident E) v call Ntop true t /\ n0 <= n1.
 Proof. exact pack_top_share. Qed.
 Print Assumptions C18_share.
+
+(* union-free schemas: udet holds for every conforming value, the statement is unconditional *)
+Theorem C18_share_unionfree : forall E n0 call Ntop t v,
+  unionfree_env E -> unionfree t = true ->
+  conforms E v t = true -> all_old n0 v = true ->
+  let (r, n1) := pack_top E call Ntop t v n0 in
+  maxold n0 r = byref E (ident E) v call Ntop true t /\ n0 <= n1.
+Proof. exact pack_top_share_unionfree. Qed.
+Print Assumptions C18_share_unionfree.
+
+(* without udet the statement is false in the faithful model: Union[List[Decimal], List[int]] under
+   no_copy {list} hands a list of Decimal out by reference, unconverted (known finding
+   C18/nocopy-union-class-check) *)
+Definition C18_share_union_full : Prop := share_union_full.
+Theorem C18_share_union_refuted : ~ C18_share_union_full.
+Proof. exact share_union_full_refuted. Qed.
+Print Assumptions C18_share_union_refuted.
 
 (* Deserialization: only Any / pass_through positions keep input objects. *)
 Theorem C18_decode_fresh : forall E n0 t w,
@@ -28,7 +49,7 @@ Print Assumptions C18_decode_fresh.
    no container with the argument and may be mutated freely. *)
 Theorem C18_default_fresh : forall E n0 t v,
   default_env E -> anyfree_env E -> anyfree t = true ->
-  conforms E v t = true -> all_old n0 v = true ->
+  conforms E v t = true -> udet E v None [] true t = true -> all_old n0 v = true ->
   forall l, In l (labels (fst (pack_top E None [] t v n0))) -> n0 <= l.
 Proof. exact pack_default_fresh. Qed.
 Print Assumptions C18_default_fresh.
@@ -58,7 +79,7 @@ Print Assumptions C18_decode_union_fresh.
    sub-value of the argument.  Mutation-freedom of the real library is what the oracle's
    snapshot comparison checks on every run. *)
 Theorem C18_no_mutation : forall E n0 call Ntop t v,
-  conforms E v t = true -> all_old n0 v = true ->
+  conforms E v t = true -> udet E v call Ntop true t = true -> all_old n0 v = true ->
   forall s, In s (maxold n0 (fst (pack_top E call Ntop t v n0))) -> In s (subvalues v).
 Proof. exact pack_no_mutation. Qed.
 Print Assumptions C18_no_mutation.
@@ -73,7 +94,7 @@ Print Assumptions C18_decode_no_mutation.
    (conv_free) and the generator's test coincide: the full statement holds there. *)
 Theorem C18_share_partial : forall E n0 call Ntop t v,
   optfree_env E -> optfree t = true ->
-  conforms E v t = true -> all_old n0 v = true ->
+  conforms E v t = true -> udet E v call Ntop true t = true -> all_old n0 v = true ->
   let (r, n1) := pack_top E call Ntop t v n0 in
   maxold n0 r = byref E (conv_free E) v call Ntop true t /\ n0 <= n1.
 Proof. exact pack_share_partial. Qed.
@@ -131,3 +152,27 @@ Example C18_nonvacuous_final :
   maxold 2 (fst (pack_top env0 None [] t v 2)) = [] /\
   fst (pack_top env0 None [OList; ODict] t v 2) = v.
 Proof. vm_compute. repeat split; reflexivity. Qed.
+
+(* encode-side unions.  Union[List[date], Dict[str, int], int]: a list goes through the first packer that
+   does not raise and is rebuilt; under no_copy {dict} a dict is claimed by the identity branch and
+   handed out; both are inside udet.  The known-finding witness is outside udet. *)
+Example C18_nonvacuous_pack_union :
+  let t := TUnion [TSeq OList (TLeaf LDate); TMap ODict TAtom TAtom; TAtom] in
+  let v1 := VSeq KList 0 [VLeaf 1%Z] in
+  let v2 := VMap KDict 1 [(VAtom 0%Z, VAtom 1%Z)] in
+  conforms env0 v1 t = true /\ udet env0 v1 None [ODict] true t = true /\
+  fst (pack_top env0 None [ODict] t v1 2) = VSeq KList 2 [VAtom 1%Z] /\
+  conforms env0 v2 t = true /\ udet env0 v2 None [ODict] true t = true /\
+  fst (pack_top env0 None [ODict] t v2 2) = v2 /\
+  maxold 2 (fst (pack_top env0 None [] t v2 2)) = [] /\
+  udet env0 (VSeq KList 0 [VLeaf 1%Z]) None [OList] true
+       (TUnion [TSeq OList (TLeaf LDecimal); TSeq OList TAtom]) = false.
+Proof. vm_compute. repeat split; reflexivity. Qed.
+
+(* Deserialization consults no dialect at all: no_copy_collections (call dialect, Config.dialect,
+   format / codec default dialect) and dialect support have no influence on the result; only the
+   field types of the class table matter. *)
+Theorem C18_decode_dialect_independent : forall E E' t w n,
+  fields_agree E E' -> unpack_top E t w n = unpack_top E' t w n.
+Proof. exact unpack_dialect_independent. Qed.
+Print Assumptions C18_decode_dialect_independent.
